@@ -307,16 +307,22 @@ static void iauth_xquery_x_reply(const char service[], const char routing[],
     } else if (reply[0] == 'O' && reply[1] == 'K'
                && (reply[2] == '\0' || reply[2] == ' ')) {
         cli->ok_mask |= 1u << ii;
-        if (reply[2] != ' ') {
+        if (reply[2] != ' ' || reply[3] == ' ' || reply[3] == '\0') {
+            /* "OK" without an account name vouches nothing. */
             srv->good_no_acct++;
         } else if ((srv->type == LOGIN)
                    || (srv->type == LOGIN_IPR)
                    || (srv->type == COMBINED)) {
-            iauth_xquery_set_account(req, reply + 3);
-            if (BITSET_GET(cli->modes, IAUTH_XQUERY_HIDDEN_ONLY)) {
-                req->holds--;
-                log_message(iauth_xquery_log, LOG_DEBUG,
-                    "release hold on %s for %s", routing, reply);
+            /* Only the first account stamp is kept, and it releases
+             * the +! hold exactly once.
+             */
+            if (req->account[0] == '\0') {
+                iauth_xquery_set_account(req, reply + 3);
+                if (BITSET_GET(cli->modes, IAUTH_XQUERY_HIDDEN_ONLY)) {
+                    req->holds--;
+                    log_message(iauth_xquery_log, LOG_DEBUG,
+                        "release hold on %s for %s", routing, reply);
+                }
             }
             if (BITSET_GET(cli->modes, IAUTH_XQUERY_HIDDEN_HOST)
                 || BITSET_GET(cli->modes, IAUTH_XQUERY_HIDDEN_ONLY))
